@@ -677,6 +677,30 @@ where
     Some(line.split_whitespace().collect::<Vec<_>>().join(" "))
 }
 
+/// a complex C_0 = Z^(1+2P) --d--> C_1 = Z^(2+2P) whose pivot search runs into conflicts in the parallel
+/// cycle-free phase: d^T has one row [1 0 1 1 ..] and P pairs of rows a_q = [0 2 .. 2 1 ..], b_q = [0 2 .. 1 2 ..]
+/// (each carries a non-unit in the column where the other finds its unit candidate); whoever commits second
+/// must notice the conflict.  Run with several threads; the result must not depend on the schedule.
+fn conflict_case(r: &mut Rng, ring: &str) -> String {
+    let p = 4 + r.below(9) as usize;
+    let (m, n) = (1 + 2 * p, 2 + 2 * p);
+    let mut d = vec![vec![0i64; m]; n];       // d is n x m ; entry (j, i) = d^T (i, j)
+    d[0][0] = 1;
+    let (two, one) = (*r.pick(&[2i64, -2, 3]), *r.pick(&[1i64, -1]));
+    for q in 0..p {
+        let (k, j) = (2 + 2 * q, 3 + 2 * q);
+        let (a, b) = (1 + q, 1 + p + q);
+        d[k][0] = 1; d[j][0] = 1;
+        d[1][a] = two; d[k][a] = two; d[j][a] = one;
+        d[1][b] = two; d[k][b] = one; d[j][b] = two;
+    }
+    let threads = *r.pick(&[2usize, 4, 8, 16, 16]);
+    let deg: isize = if r.bool() { 1 } else { -1 };
+    let kind = if r.bool() { "red" } else { "cpx" };
+    let mats: Vec<String> = d.iter().flatten().map(|x| x.to_string()).collect();
+    format!("{kind} {ring} {threads} {deg} 2 {m} {n} {}", mats.join(" "))
+}
+
 fn main() {
     quiet_panics();
     let log: PivLog = Arc::new(Mutex::new(vec![]));
@@ -713,6 +737,15 @@ fn main() {
                     _ => gen_case::<ZH>(&mut r, ring, thorough),
                 };
                 let Some(c) = c else { dropped += 1; continue };
+                match run_line(&c, &pools, &log) {
+                    Some(res) => o.case(&c, &res),
+                    None => dropped += 1,
+                }
+            }
+            // conflict-prone complexes under 2..16 threads
+            let nc = if thorough { 400 } else { 80 };
+            for k in 0..nc {
+                let _ = k; let c = conflict_case(&mut r, "ZB");
                 match run_line(&c, &pools, &log) {
                     Some(res) => o.case(&c, &res),
                     None => dropped += 1,
